@@ -29,13 +29,40 @@ EXCEPTIONS = {
     ("autoarray.structures.decorators.to_projected:to_projected.<locals>.wrapper", "no_mask"): "1-D radial projection",
     ("autoarray.dataset.preprocess:background_noise_map_via_edges_from", "full"): "NOTE: drops the image origin, but is not one of the entry points C12 names (reported as a note, not a violation)",
     ("autoarray.dataset.abstract.dataset:AbstractDataset.__init__", "no_mask"): "NOTE: visualisation-only noise map built from a covariance matrix (also binds pixel_scales to a shape); not an entry point C12 names",
-    ("autoarray.structures.mesh.delaunay_2d:Mesh2DDelaunay.interpolated_array_from", "no_mask"): "NOTE: interpolation onto a user-given extent for visualisation; not an entry point C12 names",
-    ("autoarray.structures.mesh.rectangular_2d:Mesh2DRectangular.interpolated_array_from", "no_mask"): "NOTE: as above",
-    ("autoarray.structures.mesh.voronoi_2d:Mesh2DVoronoi.interpolated_array_from", "no_mask"): "NOTE: as above",
     ("autoarray.operators.contour:Grid2DContour.contour_array", "grid_pixel_centres_2d_slim_from"): "NOTE: Grid2DContour carries no origin of its own; not an entry point C12 names",
     ("autoarray.operators.contour:Grid2DContour.contour_list", "grid_scaled_2d_slim_from"): "NOTE: as above",
     ("autoarray.mask.derive.mask_1d:DeriveMask1D.to_mask_2d", "__init__"): "NOTE: 1-D -> 2-D mask conversion uses a literal origin; 1-D projections are outside C12's entry points",
 }
+
+
+def _reads_origin(cls, name: str, depth: int = 0, seen=None) -> bool:
+    """does property / method `name` of cls read the object's origin (directly, or through other members of the same object)?"""
+    seen = seen if seen is not None else set()
+    if cls is None or depth > 3 or name in seen:
+        return False
+    seen.add(name)
+    m = cls.lookup(name)
+    if m is None:
+        return False
+    for n in m.body_nodes():
+        if isinstance(n, ast.Attribute) and isinstance(n.value, ast.Name) and n.value.id == "self":
+            if n.attr in geom.POINT_ATTRS or _reads_origin(cls, n.attr, depth + 1, seen):
+                return True
+    return False
+
+
+def _origin_carrier(p, f, s):
+    """the name of an argument of the call whose value is a member of the parent object that is itself computed from the parent's origin
+    (`centres_scaled=self.central_scaled_coordinates`): the origin is handed on, only not under its own name"""
+    if f.cls is None:
+        return None
+    for k, v in s["bind"].items():
+        if k == s["oname"]:
+            continue
+        for n in ast.walk(wire.inline_locals(f, v)):
+            if isinstance(n, ast.Attribute) and isinstance(n.value, ast.Name) and n.value.id == "self" and n.attr not in geom.GEO_ATTRS and _reads_origin(f.cls, n.attr):
+                return f"`{k}={norm_text(v)[:60]}`"
+    return None
 
 
 def forwarding_rule(ctx, p):
@@ -57,6 +84,10 @@ def forwarding_rule(ctx, p):
                 used_exc.add(ek)
                 if EXCEPTIONS[ek].startswith("NOTE"):
                     ctx.note(f"{f.where(c)} {f.qualname}: {t.name}(...) without origin although {s['roots'] or s['own_origin']} is in scope - {EXCEPTIONS[ek][6:]}")
+                continue
+            carried = _origin_carrier(p, f, s)
+            if carried:
+                ctx.ob("C12.forward", inst, True, detail=f"`{s['oname']}` is not passed by name, but the origin travels inside argument {carried} (a quantity of the parent computed from its origin); what the callee computes from it is C02's question", nontrivial=False)
                 continue
             ctx.ob("C12.forward", inst, False, where=f, node=c, construct=f"{norm_text(c.func)}({', '.join(sorted(s['bind']))}) with geometry from {s['roots'] or s['own_origin']}",
                    message=f"`{s['oname']}` is not passed although the parent's geometry is in scope: the result is rebuilt around (0.0, 0.0) and forgets where its parent was")
